@@ -3,7 +3,8 @@
 
 harness.cpp instantiates static_set / flat_set for 5 container families x 5 comparators x 4 capacities; as one
 translation unit that is ~27 s of g++ -O1 (and /repo/include changes often, which invalidates the cached binary).
-This wrapper compiles the SAME source four times (-DC09_PART=0..3: one comparator each, see the end of harness.cpp),
+This wrapper compiles the SAME source six times (-DC09_PART=0..5: one comparator each for the int / tracked families,
+two comparators each for the string-key / std-container families, see the end of harness.cpp),
 at most C09_JOBS (default 4) at a time, and links the objects.  It accepts the g++ command line the engine builds:
     pcxx.py <flags...> <src>.cpp -o <exe>
 """
@@ -12,7 +13,7 @@ import subprocess
 import sys
 import tempfile
 
-NPARTS = 4
+NPARTS = 6
 
 
 def main(argv):
